@@ -336,6 +336,13 @@ class RaggedArray(IndexableArray, np.lib.mixins.NDArrayOperatorsMixin):
                     raise TypeError("inconsistent sizes")
             else:
                 return NotImplemented
+        out = kwargs.pop("out", None)
+        if out is not None:
+            # in-place operators (ra += x) arrive as out=(ra,): the result is written into the arrays' own buffers
+            if not all(isinstance(o, RaggedArray) and o._shape == self._shape for o in out):
+                return NotImplemented
+            ufunc(*datas, out=tuple(o.ravel() for o in out), **kwargs)
+            return out[0] if len(out) == 1 else out
         return RaggedArray(ufunc(*datas, **kwargs), self._shape)
 
     def __array_function__(self, func: callable, types: List, args: List, kwargs: Dict):
